@@ -5,7 +5,8 @@ body under the final context (`gohcl.DecodeBody`); attribute values may be liter
 templates with interpolation, tuple / object constructors and calls of the registered collection functions
 (`buildHclContext`).  What reaches `ConvertHCLToAmmo` is the EVALUATED description: a closed value tree `V`.
 
-* `E`           syntax of an HCL body: literals, tuples, objects / block bodies, `local.x`, templates, function calls;
+* `E`           syntax of an HCL body: literals, tuples, objects / block bodies, `local.x`, templates, function calls,
+                index / attribute access (`local.m.k`, `local.l[1]`);
 * `applyFn`     the registered go-cty stdlib collection functions on strings, lists of strings and string maps
                 (outside that: `none` = no prediction);
 * `evalE`       evaluation under an environment of locals; the function table (HCL name ↦ stdlib function) is a
@@ -21,6 +22,7 @@ Core Lean only.
 import Pandora.Model.C16
 
 namespace Pandora.Model.C16
+open Pandora.Go
 
 /-- syntax of an HCL body / expression -/
 inductive E where
@@ -38,9 +40,36 @@ inductive E where
   | tmpl (parts : List E)
   /-- `fn(args…)` -/
   | call (fn : String) (args : List E)
+  /-- `e[k]`, `e.k`: element of a tuple by number, member of an object by name -/
+  | idx (e : E) (k : E)
   deriving Repr, Inhabited
 
 abbrev Env := List (String × V)
+
+mutual
+/-- structural equality test on value trees -/
+def beqV : V → V → Bool
+  | .null, .null => true
+  | .str a, .str b => a == b
+  | .int a, .int b => a == b
+  | .bool a, .bool b => a == b
+  | .seq xs, .seq ys => beqVL xs ys
+  | .map xs, .map ys => beqVM xs ys
+  | _, _ => false
+def beqVL : List V → List V → Bool
+  | [], [] => true
+  | x :: xs, y :: ys => beqV x y && beqVL xs ys
+  | _, _ => false
+def beqVM : List (String × V) → List (String × V) → Bool
+  | [], [] => true
+  | (k, x) :: xs, (k', y) :: ys => k == k' && beqV x y && beqVM xs ys
+  | _, _ => false
+end
+
+def beqOV : Option V → Option V → Bool
+  | none, none => true
+  | some a, some b => beqV a b
+  | _, _ => false
 
 def envGet (env : Env) (k : String) : Option V := (env.find? (fun p => p.1 == k)).map (·.2)
 
@@ -54,10 +83,49 @@ def mergeMaps (dst src : Env) : Env := src.foldl (fun acc p => envSet acc p.1 p.
 
 /-! ### the collection functions (go-cty `function/stdlib`) on strings, string lists and string maps -/
 
-def strsOf : List V → Option (List String)
-  | [] => some []
-  | .str s :: r => (strsOf r).map (s :: ·)
+/-- a primitive value converted to string (cty `convert`: number → decimal, bool → `true` / `false`) -/
+def primStr : V → Option String
+  | .str s => some s
+  | .int i => some (toString i)
+  | .bool b => some (if b then "true" else "false")
   | _ => none
+
+/-- a tuple passed for a `list(string)` parameter: every member is converted to string -/
+def strsConv : List V → Option (List String)
+  | [] => some []
+  | x :: r => (primStr x).bind fun s => (strsConv r).map (s :: ·)
+
+def isStrV : V → Bool
+  | .str _ => true
+  | _ => false
+
+def isIntV : V → Bool
+  | .int _ => true
+  | _ => false
+
+def isBoolV : V → Bool
+  | .bool _ => true
+  | _ => false
+
+def isNullV : V → Bool
+  | .null => true
+  | _ => false
+
+def strSeq : V → Bool
+  | .seq xs => xs.all isStrV
+  | _ => false
+
+def strMapV : V → Bool
+  | .map kvs => kvs.all fun p => isStrV p.2
+  | _ => false
+
+/-- the arguments of `coalesce` after type unification (`none`: no common type, or outside the model): strings,
+numbers and bools unify to string when a string is among them; tuples of strings and objects of strings are kept -/
+def coalesceUnify (xs : List V) : Option (List V) :=
+  let nn := xs.filter (!isNullV ·)
+  if nn.all isStrV || nn.all isIntV || nn.all isBoolV || nn.all strSeq || nn.all strMapV then some nn
+  else if nn.any isStrV then (strsConv nn).map (·.map V.str)
+  else none
 
 /-- insertion sort (structural: the kernel can evaluate it), bytewise = code point order like Go's `sort.Strings` -/
 def insStr (x : String) : List String → List String
@@ -98,8 +166,10 @@ def splitAux (sep : List Char) : Nat → List Char → List Char → List (List 
     if sep.isPrefixOf (c :: rest) then cur.reverse :: splitAux sep fuel [] ((c :: rest).drop sep.length)
     else splitAux sep fuel (c :: cur) rest
 
+/-- `strings.Split(s, sep)`; an empty separator explodes the string into its characters -/
 def goSplit (s sep : String) : List String :=
-  (splitAux sep.toList (s.length + 1) [] s.toList).map String.ofList
+  if sep == "" then s.toList.map fun c => String.ofList [c]
+  else (splitAux sep.toList (s.length + 1) [] s.toList).map String.ofList
 
 def natOf : V → Option Nat
   | .int i => if i < 0 then none else some i.toNat
@@ -136,11 +206,13 @@ def zipKV : List String → List V → Env → Option Env
 /-- one registered function, selected by the name of the go-cty stdlib variable it is bound to -/
 def applyFn (sym : String) (args : List V) : Option V :=
   match sym, args with
-  | "CoalesceFunc", xs => firstNonNull xs
+  | "CoalesceFunc", xs => (coalesceUnify xs).bind firstNonNull
   | "CoalesceListFunc", xs => firstNonEmptyList xs
-  | "CompactFunc", [.seq xs] => (strsOf xs).map fun ss => .seq ((ss.filter (· != "")).map V.str)
+  | "CompactFunc", [.seq xs] => (strsConv xs).map fun ss => .seq ((ss.filter (· != "")).map V.str)
   | "ConcatFunc", x :: xs => (concatLists (x :: xs)).map V.seq
-  | "DistinctFunc", [.seq xs] => (strsOf xs).map fun ss => .seq ((dedup ss []).map V.str)
+  | "DistinctFunc", [.seq xs] =>
+    if xs.isEmpty then some (.seq [])
+    else if xs.any isStrV then (strsConv xs).map fun ss => .seq ((dedup ss []).map V.str) else none
   | "ElementFunc", [.seq xs, i] =>
     (natOf i).bind fun n => if xs.isEmpty then none else xs[n % xs.length]?
   | "FlattenFunc", [.seq xs] => some (.seq (flattenL xs))
@@ -152,10 +224,10 @@ def applyFn (sym : String) (args : List V) : Option V :=
   | "SliceFunc", [.seq xs, a, b] =>
     (natOf a).bind fun s => (natOf b).bind fun e =>
       if s ≤ e ∧ e ≤ xs.length then some (.seq ((xs.drop s).take (e - s))) else none
-  | "SortFunc", [.seq xs] => (strsOf xs).map fun ss => .seq ((sortStrs ss).map V.str)
-  | "SplitFunc", [.str sep, .str s] => if sep == "" then none else some (.seq ((goSplit s sep).map V.str))
+  | "SortFunc", [.seq xs] => (strsConv xs).map fun ss => .seq ((sortStrs ss).map V.str)
+  | "SplitFunc", [.str sep, .str s] => some (.seq ((goSplit s sep).map V.str))
   | "ValuesFunc", [.map kvs] => some (.seq ((sortKV kvs).map (·.2)))
-  | "ZipmapFunc", [.seq ks, .seq vs] => (strsOf ks).bind fun ss => (zipKV ss vs []).map V.map
+  | "ZipmapFunc", [.seq ks, .seq vs] => (strsConv ks).bind fun ss => (zipKV ss vs []).map V.map
   | _, _ => none
 
 /-! ### evaluation -/
@@ -195,6 +267,11 @@ def evalE (fns : List (String × String)) (env : Env) : E → Option V
     match fns.find? (fun p => p.1 == f) with
     | none => none
     | some p => (evalL fns env args).bind (applyFn p.2)
+  | .idx e k =>
+    match evalE fns env e, evalE fns env k with
+    | some (.seq xs), some (.int i) => if i < 0 then none else xs[i.toNat]?
+    | some (.map kvs), some (.str s) => envGet kvs s
+    | _, _ => none
 def evalL (fns : List (String × String)) (env : Env) : List E → Option (List V)
   | [] => some []
   | x :: xs =>
@@ -232,6 +309,87 @@ structure HclFile where
 def evalFile (fns : List (String × String)) (f : HclFile) : Option V :=
   (evalLocals fns [] f.locals).bind fun env => evalE fns env f.body
 
+/-! ### from the evaluated body to the HCL structs (`gohcl.DecodeBody`)
+
+gohcl decodes the evaluated body against the `hcl` tags of the Go structs: an argument or block the struct does not
+have refuses the file, so does a missing required argument; the value of an attribute is CONVERTED to the Go type of
+the field (cty `convert`): a number or bool written where a string is expected becomes its decimal / `true` / `false`
+text (`port = 8090` in a `map[string]string` denotes `"8090"`), the members of a tuple for a `[]string` and the
+values of an object for a `map[string]string` likewise; anything else (a list for a string, a string for a number that
+is not modelled …) is `none`. -/
+
+def mapStrVals : List (String × V) → Option (List (String × V))
+  | [] => some []
+  | (k, x) :: rest => (primStr x).bind fun s => (mapStrVals rest).map ((k, V.str s) :: ·)
+
+/-- conversion of an attribute value to a leaf type; `null` = the argument is absent -/
+def coerceLeaf : C16Leaf → V → Option V
+  | _, .null => some .null
+  | .str, v => (primStr v).map V.str
+  | .int, .int i => some (.int i)
+  | .bool, .bool b => some (.bool b)
+  | .strList, .seq xs => (strsConv xs).map fun ss => .seq (ss.map V.str)
+  | .strMap, .map kvs => (mapStrVals kvs).map V.map
+  | .anyMap, .map kvs => some (.map kvs)
+  | _, _ => none
+
+/-- every required argument / label of struct `s` is written (non-null) -/
+def requiredOK (T : Tables) (s : String) (fs : List (String × V)) : Bool :=
+  (hFields T s).all fun f =>
+    f.optional || (match fs.find? (fun p => p.1 == f.hcl) with
+      | some (_, .null) => false
+      | some _ => true
+      | none => false)
+
+mutual
+def coerceV (T : Tables) : C16HTy → V → Option V
+  | ty, .map fs =>
+    match ty with
+    | .struct s => if requiredOK T s fs then (coerceFs T s fs).map V.map else none
+    | .leaf l => coerceLeaf l (.map fs)
+    | .structList _ => none
+  | ty, .seq xs =>
+    match ty with
+    | .structList s => (coerceXs T s xs).map V.seq
+    | .leaf l => coerceLeaf l (.seq xs)
+    | .struct _ => none
+  | ty, .null =>
+    match ty with
+    | _ => some .null
+  | ty, .str x =>
+    match ty with
+    | .leaf l => coerceLeaf l (.str x)
+    | _ => none
+  | ty, .int x =>
+    match ty with
+    | .leaf l => coerceLeaf l (.int x)
+    | _ => none
+  | ty, .bool x =>
+    match ty with
+    | .leaf l => coerceLeaf l (.bool x)
+    | _ => none
+def coerceFs (T : Tables) (s : String) : List (String × V) → Option (List (String × V))
+  | [] => some []
+  | (k, x) :: rest =>
+    match findH T s k with
+    | none => none
+    | some f =>
+      match coerceV T f.ty x, coerceFs T s rest with
+      | some y, some ys => some ((k, y) :: ys)
+      | _, _ => none
+def coerceXs (T : Tables) (s : String) : List V → Option (List V)
+  | [] => some []
+  | x :: xs =>
+    match coerceV T (.struct s) x, coerceXs T s xs with
+    | some y, some ys => some (y :: ys)
+    | _, _ => none
+end
+
+/-- `ParseHCLFile`: the description stored into `AmmoHCL` — the body evaluated under the locals, converted to the
+types of the HCL structs (`none`: the file is refused) -/
+def hclDescription (T : Tables) (fns : List (String × String)) (f : HclFile) : Option V :=
+  (evalFile fns f).bind (coerceV T (.struct T.hclRoot))
+
 /-! ### writing the locals out -/
 
 mutual
@@ -266,6 +424,7 @@ def inlineE (env : Env) : E → E
     | none => .loc n
   | .tmpl ps => .tmpl (inlineEL env ps)
   | .call f args => .call f (inlineEL env args)
+  | .idx e k => .idx (inlineE env e) (inlineE env k)
 def inlineEL (env : Env) : List E → List E
   | [] => []
   | x :: xs => inlineE env x :: inlineEL env xs
@@ -277,7 +436,7 @@ end
 /-- the HCL front-end from the file's syntax: refused when evaluation fails, otherwise `hclPath` of the evaluated
 description -/
 def hclFilePath (T : Tables) (fns : List (String × String)) (f : HclFile) : Outcome :=
-  match evalFile fns f with
+  match hclDescription T fns f with
   | none => .refused
   | some d => hclPath T d
 
